@@ -12,7 +12,7 @@ RULE = ("online-generated driver schedules on the real messageSenderImpl over a 
         "(virtual time) / ctx cancel|deadline / OnDisconnect (with or without the transport killing the peer's streams); five profiles "
         "(mixed, fault-heavy, stream-reuse counter, slow remote, disconnect-heavy). A case is non-trivial when it reaches at least one of "
         "retry / write-fail / dial-fail / timeout / timeout-twice / late-reply-dropped / garbage / remote-reset / cancel-blocked / "
-        "disc-busy / disc-idle / invalidated / two-open-after-disc / one-message-per-stream / msg-ok; distinct = distinct "
+        "disc-busy / disc-idle / invalidated / two-open-streams / one-message-per-stream / msg-ok; distinct = distinct "
         "(branch set, peers, calls) signatures")
 TRUSTED = [
     "the in-memory stream of the harness (Read/Write/Reset/Close over buffers, write of a complete varint-framed message is a gate) "
